@@ -2,7 +2,10 @@
 
 * mutants: one seeded defect each (release deleted, wrapper pair swapped,
   escape dropped ...) on which the property's rules MUST fire;
-* refactors: behaviour-preserving edits on which they MUST stay silent.
+* refactors: behaviour-preserving edits on which they MUST stay silent --
+  hand-written ones and the whole-package rewrites of chamlint.refactors
+  (re-formatting, renaming of locals, inverted if/else, extracted return
+  values, no-op statements, swapped independent assignments).
 
 Scratch copies live under $TMPDIR, outside /repo and /verif, and are removed
 immediately.  Nothing of the scratch copy is executed either -- the same
@@ -84,8 +87,44 @@ def _run_patchfile(prop, m):
         shutil.rmtree(tmp, ignore_errors=True)
 
 
+def _run_refactor(prop, m):
+    """whole-package behaviour-preserving rewrite (chamlint.refactors)"""
+    from . import refactors
+    tmp = tempfile.mkdtemp(prefix="chamlint-")
+    try:
+        shutil.copytree(os.path.join(REPO, "src"), os.path.join(tmp, "src"),
+                        ignore=shutil.ignore_patterns(
+                            "tests", "__pycache__", "*.pyc"))
+        try:
+            refactors.rewrite(m["mode"], tmp)
+        except SyntaxError as exc:
+            return m["id"], "skipped", "source does not parse: %s" % exc
+        from . import lib
+        lib._CACHE.clear()
+        mod = importlib.import_module("chamlint.rules.%s" % prop.lower())
+        rep = Report(prop, "selftest")
+        try:
+            mod.run(Repo(tmp), rep, "quick")
+        except AnalysisError as exc:
+            return m["id"], "analysis-error", str(exc)[:200]
+        except Exception as exc:  # noqa
+            return m["id"], "analysis-error", "%s: %s" % (
+                type(exc).__name__, str(exc)[:200])
+        known = load_known()
+        viol = [o for o in rep.obligations if o["status"] == "VIOLATED"
+                and finding_key(prop, o) not in known]
+        if viol:
+            return m["id"], "fired", "; ".join(
+                "%s[%s]" % (o["rule"], o.get("construct")) for o in viol[:4])
+        return m["id"], "silent", ""
+    finally:
+        shutil.rmtree(tmp, ignore_errors=True)
+
+
 def _run_one(args):
     prop, m = args
+    if "mode" in m:
+        return _run_refactor(prop, m)
     if "patchfile" in m:
         return _run_patchfile(prop, m)
     src_root = os.path.join(REPO, "src", "chameleon")
@@ -134,7 +173,10 @@ def _run_one(args):
 
 
 def run(prop, rep, jobs=16):
-    muts = list(MUTANTS.get(prop, [])) + _seeded_variants(prop)
+    from .refactors import MODES
+    muts = list(MUTANTS.get(prop, [])) + _seeded_variants(prop) + [
+        dict(id="refactor:" + mode, mode=mode, expect="silent")
+        for mode in MODES]
     if not muts:
         rep.selftest = dict(mutants=0, note="no seeded variants registered")
         return
